@@ -74,11 +74,14 @@ type Case struct {
 	Rng   *rand.Rand
 	res   *Result
 	steps *os.File
+	mu    sync.Mutex // Step and Count are also called from monitors running in other goroutines (fault plans, hook listeners, concurrent clients)
 }
 
 // Step records a step of the case script *before* it is executed (crash witness).
 func (c *Case) Step(format string, a ...interface{}) {
 	s := fmt.Sprintf(format, a...)
+	c.mu.Lock()
+	defer c.mu.Unlock()
 	c.res.Script = append(c.res.Script, s)
 	if c.steps != nil {
 		c.steps.WriteString(s + "\n")
@@ -87,6 +90,8 @@ func (c *Case) Step(format string, a ...interface{}) {
 
 // Count adds to a named observed-event counter.
 func (c *Case) Count(name string, n int64) {
+	c.mu.Lock()
+	defer c.mu.Unlock()
 	if c.res.Counters == nil {
 		c.res.Counters = map[string]int64{}
 	}
